@@ -133,7 +133,9 @@ def prove(pid, thorough=False):
                 rc1, out1 = sh(["lake", "build", m], cwd=core.LEAN_DIR)
                 built[m] = rc1 == 0
                 if rc1 != 0:
-                    res["failed"].append("module %s does not build: %s" % (m, _first_error(out1)))
+                    names = _broken_theorems(out1)
+                    res["failed"].append("module %s does not build%s: %s" % (
+                        m, (" (broken: %s)" % ", ".join(names)) if names else "", _first_error(out1)))
             rcd, outd = sh(["lake", "build", "driver"], cwd=core.LEAN_DIR)
             if rcd != 0:
                 res["failed"].append("driver does not build: " + _first_error(outd))
@@ -179,6 +181,25 @@ def prove(pid, thorough=False):
             if rc3 != 0:
                 res["failed"].append("leanchecker rejected the property modules: " + _first_error(out3))
     return res
+
+def _broken_theorems(out):
+    """names of the theorems / definitions that enclose the error positions of a failed `lake build`"""
+    names = []
+    for m in re.finditer(r"error: (\S+?\.lean):(\d+):\d+", out):
+        path, line = m.group(1), int(m.group(2))
+        if not os.path.isabs(path):
+            path = os.path.join(core.LEAN_DIR, path)
+        try:
+            src = open(path).read().split("\n")
+        except OSError:
+            continue
+        for i in range(min(line, len(src)) - 1, -1, -1):
+            mm = re.match(r"\s*(?:private\s+|protected\s+)?(?:theorem|def|lemma|example|instance)\s+(\S+)", src[i])
+            if mm:
+                if mm.group(1) not in names:
+                    names.append(mm.group(1))
+                break
+    return names
 
 def _first_error(out):
     for line in out.split("\n"):
